@@ -482,6 +482,8 @@ def refusal_class(world, op, out) -> str:
             return "missing_position"
         if "division" in msg:
             return "conflict_without_force"
+        if op.get("bad_pixels"):
+            return "unwritable_pixels:" + op["bad_pixels"]
         return f"other:{out.exc_name}"
     if kind == "add_edge":
         if any(n not in g for n in op["edge"]):
